@@ -225,6 +225,25 @@ def ref_adaptive(D, kA, order, nb=None):
     return R
 
 
+def numpy_table(obj, miss=None):
+    """(round 5c) the table `set_adaptive_neighborhood_size` hands to the kernel for this
+    object: the same deterministic call (same array, dtype and layout) on the object's own
+    cached distance matrix; `miss` (states holding a missing value, computed by the harness
+    from the series) is given for an object built with `missing_values=True`"""
+    from pyunicorn.timeseries import RecurrencePlot
+    with np.errstate(all="ignore"):
+        distance = RecurrencePlot.distance_matrix(obj, obj.metric)
+        if miss is not None and any(miss):
+            distance = distance.copy()
+            distance[np.array(miss, dtype=bool), :] = np.inf
+            distance[:, np.array(miss, dtype=bool)] = np.inf
+        return distance.argsort(axis=1)
+
+
+def enc_table(sn):
+    return ";".join(",".join(map(str, r)) for r in np.asarray(sn).tolist()) or "-"
+
+
 STD_BLOCKS = ([-2, 2], [-4, 1, 1, 1, 1], [4, -1, -1, -1, -1])
 
 
@@ -761,13 +780,18 @@ def run(ctx):
         check_rqa(ctx, obj, R, cls, dict(spec="adaptive", missing=False), replay)
         # correspondence at the object level (argsort + kernel + stride), rows without ties:
         # the constructor, then the setter with a caller-chosen processing order
-        if all(len(set(r)) == len(r) for r in D):
-            ctx.count("adaptive-object in correspondence")
+        # (round 5c: through `adaptiveObjPlot` / `adaptiveObjNet` with the table NumPy produced,
+        #  so rows with tied distances are no longer excluded from the correspondence; the
+        #  reference construction below still needs an unambiguous ranking)
+        tie_free = all(len(set(r)) == len(r) for r in D)
+        if True:
+            ctx.count("adaptive-object in correspondence" + ("" if tie_free else " (tied rows)"))
+            sntxt = enc_table(numpy_table(obj))
             if net:
-                reqs.append(f"rnx 0 {metric} 0 - a:{kA} - {enc_vmat(ts)}")
+                reqs.append(f"rnx 0 {metric} 0 0 - a:{kA} - {sntxt} {enc_vmat(ts)}")
                 impl.append(f"N={int(obj.N)} A={enc_bmat(obj.adjacency)}")
             else:
-                reqs.append(f"rpx {metric} 0 0 - a:{kA} - {enc_vmat(ts)}")
+                reqs.append(f"rpx {metric} 0 0 - a:{kA} - {sntxt} {enc_vmat(ts)}")
                 impl.append(f"N={int(obj.N)} M={int(obj.N)} R={enc_bmat(R)}")
             kB = rng.randrange(0, n + 2)
             order = list(range(n))
@@ -780,7 +804,7 @@ def run(ctx):
                 R2 = np.asarray(obj.recurrence_matrix())
                 got = (f"N={int(obj.N)} A={enc_bmat(obj.adjacency)}" if net else
                        f"N={int(obj.N)} M={int(obj.N)} R={enc_bmat(R2)}")
-                if len(order) == n and R2.tolist() != ref_adaptive(D, kB, order):
+                if len(order) == n and tie_free and R2.tolist() != ref_adaptive(D, kB, order):
                     ctx.fail(dict(kind="adaptive", cls=cls, issue="order"),
                              f"{cls}.set_adaptive_neighborhood_size({kB}, order={order}) is not the "
                              "documented construction for that processing order",
@@ -798,8 +822,8 @@ def run(ctx):
                              f"{cls}.set_adaptive_neighborhood_size({kB}, order=permutation) raised "
                              f"{type(ex).__name__}: {ex}", dict(replay, setter_arg=kB, order=order))
             if len(order) and not (net and got.startswith("raise")):
-                reqs.append((f"rnx 1 {metric} 0 - a:{kB} {ordtxt} {enc_vmat(ts)}" if net else
-                             f"rpx {metric} 0 0 - a:{kB} {ordtxt} {enc_vmat(ts)}"))
+                reqs.append((f"rnx 1 {metric} 0 0 - a:{kB} {ordtxt} {sntxt} {enc_vmat(ts)}" if net else
+                             f"rpx {metric} 0 0 - a:{kB} {ordtxt} {sntxt} {enc_vmat(ts)}"))
                 impl.append(got)
 
     # adaptive neighbourhood size with TIED distances and with MISSING VALUES (round 5):
@@ -926,8 +950,17 @@ def run(ctx):
         if not with_nan:
             check_rqa(ctx, obj, R, cls, dict(spec="adaptive", missing=False), replay)
         sntxt = ";".join(",".join(map(str, r)) for r in sn.tolist())
-        reqs.append(f"adaptsn {'0' if net else 'p'} {metric} {int(mv)} {enc_emb(emb)} {kA} - "
-                    f"{sntxt} {enc_vmat(ts)}")
+        # round 5c: three in four go through the object-level model (`adaptiveObjPlot` /
+        # `adaptiveObjNet`: series -> states -> masked distances -> kernel -> stride / deletion),
+        # the rest through the round-5 request on the state vectors
+        obj_level = c % 4 != 0
+        ctx.count("adaptive-ties via " + ("rpx/rnx (object level)" if obj_level else "adaptsn"))
+        if obj_level:
+            reqs.append((f"rnx 0 {metric} {int(mv)} 0" if net else f"rpx {metric} {int(mv)} 0")
+                        + f" {enc_emb(emb)} a:{kA} - {sntxt} {enc_vmat(ts)}")
+        else:
+            reqs.append(f"adaptsn {'0' if net else 'p'} {metric} {int(mv)} {enc_emb(emb)} {kA} - "
+                        f"{sntxt} {enc_vmat(ts)}")
         impl.append(f"N={int(obj.N)} A={enc_bmat(obj.adjacency)}" if net else
                     f"N={int(obj.N)} M={int(obj.N)} R={enc_bmat(R)}")
         ctx.count("adaptive-ties object in correspondence")
@@ -957,8 +990,13 @@ def run(ctx):
                      f"{cls}.set_adaptive_neighborhood_size({kB}, order=permutation) raised "
                      f"{type(ex).__name__}: {ex}", dict(replay, setter_arg=kB, order=order))
         if not (net and got.startswith("raise")):
-            reqs.append(f"adaptsn {'1' if net else 'p'} {metric} {int(mv)} {enc_emb(emb)} {kB} "
-                        f"{','.join(map(str, order))} {sntxt} {enc_vmat(ts)}")
+            if obj_level:
+                reqs.append((f"rnx 1 {metric} {int(mv)} 0" if net else f"rpx {metric} {int(mv)} 0")
+                            + f" {enc_emb(emb)} a:{kB} {','.join(map(str, order))} {sntxt} "
+                              f"{enc_vmat(ts)}")
+            else:
+                reqs.append(f"adaptsn {'1' if net else 'p'} {metric} {int(mv)} {enc_emb(emb)} {kB} "
+                            f"{','.join(map(str, order))} {sntxt} {enc_vmat(ts)}")
             impl.append(got)
 
     # ------------------------------------------------------------------
@@ -1399,7 +1437,9 @@ def run(ctx):
             continue
         complete = not any(has_missing(st))
         # the history: constructor + up to three setters on the same object
-        kinds = "tsrla" if complete else "tsrl"
+        # (round 5c: adaptive objects also on incomplete data — `missing_values=True` with NaN —
+        #  through `adaptiveObjPlot` with NumPy's table; rounds 1–5 built them only on complete data)
+        kinds = "tsrla"
         hist = [gen_spec(rng.choice(kinds if not norm else "ttsrla"), n_st)
                 for _ in range(rng.choice([1, 2, 3, 4]))]
         arr = caller_array(rng, ts if d > 1 or rng.random() < 0.5 else ts[:, 0])
@@ -1444,9 +1484,26 @@ def run(ctx):
                          f"{cls} modified the caller's array", replay)
                 break
             # correspondence (rows with tied distances: argsort order unspecified)
-            in_corr = margin_ok(metric, rows, st, spec, exact, norm) and \
-                (spec[0] != "a" or (complete and rows_distinct(metric, st)))
-            if in_corr:
+            # (round 5c: adaptive requests carry the table NumPy produced for this object, so
+            #  tied rows and states with missing values stay in the correspondence; after an
+            #  inexact normalisation `margin_ok` still asks for distinct distances)
+            in_corr = margin_ok(metric, rows, st, spec, exact, norm)
+            if in_corr and spec[0] == "a":
+                ordtxt = "-" if order is None else ",".join(map(str, order))
+                sntxt = enc_table(numpy_table(obj, has_missing(st) if mv else None))
+                ctx.count("x:adaptive object in correspondence"
+                          + (":tied rows" if not (complete and rows_distinct(metric, st)) else "")
+                          + (":missing states" if not complete else "")
+                          + (":norm" if norm else "") + (":emb" if emb else ""))
+                if net:
+                    reqs.append(f"rnx {int(step > 0)} {metric} {int(mv)} {int(norm)} {enc_emb(emb)} "
+                                f"{enc_spec_x(spec)} {ordtxt} {sntxt} {enc_vmat(ts)}")
+                    impl.append(f"N={int(obj.N)} A={enc_bmat(obj.adjacency)}")
+                else:
+                    reqs.append(f"rpx {metric} {int(mv)} {int(norm)} {enc_emb(emb)} "
+                                f"{enc_spec_x(spec)} {ordtxt} {sntxt} {enc_vmat(ts)}")
+                    impl.append(f"N={int(obj.N)} M={int(obj.N)} R={enc_bmat(R)}")
+            elif in_corr:
                 ordtxt = "-" if order is None else ",".join(map(str, order))
                 if net:
                     reqs.append(f"rnx {int(step > 0)} {metric} {int(norm)} {enc_emb(emb)} "
@@ -1477,6 +1534,11 @@ def run(ctx):
                              "differs from the thresholded distance matrix of the stored series",
                              dict(replay, expected=enc_bmat(exp), observed=enc_bmat(R)))
                     break
+            if not complete and spec[0] == "a" and not np.array_equal(R, R.T):
+                ctx.fail(dict(kind="adaptive", cls=cls, issue="symmetry", missing_values=mv),
+                         f"{cls}.set_adaptive_neighborhood_size({int(spec[1])}, order={order}) with "
+                         "missing values: asymmetric matrix", dict(replay, R=enc_bmat(R)))
+                break
             if complete and spec[0] == "a":
                 kA = int(spec[1])
                 neigh = R.sum(axis=1) - np.diag(R)
